@@ -158,6 +158,8 @@ pub struct Endpoint {
     pub protocol_errors: Vec<String>,
     /// responder: streams whose DATA frames are preceded by an empty and a padding-only frame
     pub pad_streams: std::collections::BTreeSet<u32>,
+    /// responder: last stream id named in the GOAWAY this endpoint sent
+    pub goaway_sent: Option<u32>,
     pub auto_ack: bool,
     unreturned_conn: i64,
     unreturned_stream: BTreeMap<u32, i64>,
@@ -190,6 +192,7 @@ impl Endpoint {
             stream_send_window: BTreeMap::new(),
             protocol_errors: vec![],
             pad_streams: Default::default(),
+            goaway_sent: None,
             auto_ack: true,
             unreturned_conn: 0,
             unreturned_stream: BTreeMap::new(),
